@@ -3,7 +3,7 @@
 From Coq Require Import List Arith NArith Bool String.
 From Coq.Strings Require Import Byte.
 From Peppi Require Import Base.Bytes Base.Outcome Base.Stream Layout.Syntax Gen.Funs Layout.Sem Layout.Rows
-  Model.Ubjson Model.Start Model.Parse Model.Reader Model.Writer Model.Recorder Proofs.C08Proof Proofs.FrameStep Proofs.TableFacts Proofs.Irregular.
+  Model.Ubjson Model.Start Model.Parse Model.Reader Model.Writer Model.Recorder Gen.Splitter Proofs.C08Proof Proofs.FrameStep Proofs.TableFacts Proofs.Irregular Proofs.SplitterLayout.
 Import ListNotations.
 
 (* an event whose code peppi does not know, declared in the payload table, is consumed whole and changes nothing
@@ -47,8 +47,15 @@ Theorem C08_unknown_events_anywhere : forall r st x h,
                     (if h then Some (List.length (emit_irr r x)) else None), []).
 Proof. exact read_irregular. Qed.
 
+(* the event handler's treatment of message-splitter blocks (block length, size field, wrapped-event and final-flag offsets,
+   the 512-byte data window) is the one regenerated from src/io/slippi/de.rs handle_splitter_event on this run; an event that
+   is not a splitter block never touches the accumulator *)
+Theorem C08_splitter_from_source : forall code buf s, handle_event code buf s = handle_event_src code buf s.
+Proof. exact handle_event_from_source. Qed.
+
 Print Assumptions C08_unknown_event_skipped.
 Print Assumptions C08_unknown_events_anywhere.
 Print Assumptions C08_decoder_ignores_suffix.
 Print Assumptions C08_read_push_ignores_suffix.
 Print Assumptions C08_start_ignores_suffix.
+Print Assumptions C08_splitter_from_source.
